@@ -46,6 +46,18 @@ CLAIMED = {
                      'independently written percentile/look-back/exclusion oracle, the whole metarize() for the sort order '
                      'and the coded floor, and height2code on every binary64 in [0,1e5). Fluffiness is not claimed.',
                 ref='DESIGN.md 4/C04', note=TRUST + '; real-number semantics for the percentile; LOWESS stubbed'),
+    'C08': dict(text='Bounded symbolic execution of the whole chain (constructor, three stages, three messages) on every '
+                     'accepted table up to the row bound and over parameter families with symbolic leaves, with '
+                     'non-deterministic stubs for scikit-learn/statsmodels that raise like the libraries outside their '
+                     'preconditions; plus constructed post-slicing states (bundle shapes up to 4 hits). Decides: ampycloud never '
+                     'calls a library outside its precondition and never trips over its own indexing. Not decided: failures '
+                     'inside the libraries within their preconditions.',
+                ref='DESIGN.md 4/C08', note=TRUST + '; library contracts as listed in the evidence assumptions'),
+    'C15': dict(text='Bounded symbolic execution of the real utils.check_data_consistency on every frame up to the row bound '
+                     '(duplicates, coincidences, anomalies, extra column, repeated index labels, two dtype variants all in the '
+                     'space) against the refusal condition written as a z3 formula; acceptance clauses (new frame, columns, '
+                     'dtypes, values, argument untouched, idempotence, warnings).',
+                ref='DESIGN.md 4/C15', note=TRUST + '; only two dtype coercions are modelled'),
 }
 NA = {}
 
